@@ -15,7 +15,8 @@ EXPLANATION = (
     'reducer passes the pickler\'s flag by keyword; dumps/dump default remote to True and forward it. R4: the dynamic table '
     'routes a missing key to the remote reducer only for types for which issubclass(key, SupportRemoteGetState) holds; the '
     'metaclass registers a class only when its MRO has a remote-aware __getstate__ and raises Warning on an inconsistent '
-    'chain.')
+    'chain.'
+    ' R4 also: the loop body that classifies one base by the signature of its __getstate__ is evaluated over the four combinations (has a `remote` parameter) x (has **kwargs) against its specification: remote -> remote-aware whatever else it accepts, no remote and **kwargs -> pass-through, neither -> blocks the chain; the verdict cache is keyed by the class object and written only with the final verdict, never on the rejecting path.')
 TECHNIQUE = 'dataflow into dispatch_table, dominance by the remote flag, signature checks'
 
 
